@@ -295,6 +295,20 @@ def into_iter(ex, v):
 def collect(ex, it, target):
     t = strip_generics(target).split("::")[-1]
     if t in ("BTreeMap", "HashMap"):
+        src = it.src if it.kind == "map" else it
+        if src.kind == "map_into" and isinstance(src.src, MapV) and any(l[0] == "abs" for l in src.src.layers) and src.pos == 0:
+            # an arbitrary (uninterpreted) table cannot be enumerated; but if the mapping closure is the identity on a GENERIC entry
+            # (fresh key, fresh value) it is the identity on every entry, and the collected map is the same table
+            if it.kind == "map":
+                k = Str(ex.fresh("generic.key", z3.StringSort()))
+                v = SymVal(ex.fresh("generic.val", VAL))
+                r = ex.call_closure(it.extra, [Agg("tuple", None, {0: k, 1: v})])
+                same = (isinstance(r, Agg) and r.ty == "tuple" and isinstance(r.fields.get(0), Str) and r.fields[0].t.eq(k.t)
+                        and isinstance(r.fields.get(1), SymVal) and r.fields[1].t.eq(v.t))
+                if not same:
+                    raise Unsupported("collect of an arbitrary table through a closure that is not the identity on a generic entry")
+            ex.prog.stats.setdefault("std_models", set()).add("collect of an arbitrary map through an entry-wise identity closure = the same map")
+            return MapV(list(src.src.layers), src.src.vkind)
         m = MapV([])
         while True:
             x = iter_next(ex, it)
